@@ -464,6 +464,9 @@ static void mode_lobpcg(const Desc& d)
         // sparse symmetric A with well separated smallest eigenvalues: diag(1..n)*g + small symmetric coupling; SPD B: tridiagonal
         MatL A = MatL::Zero(n, n), B = MatL::Identity(n, n);
         const bool indef = c % 4 == 3;
+        // c % 8 == 5: the whole pencil at a small scale (A * 1e-9, the tolerance scaled with it): nothing in the iteration may depend on
+        // an absolute threshold
+        const LD scale = d.has("lobscale") ? std::pow((LD) 10, (LD) d.i("lobscale")) : (c % 8 == 5 ? 1e-9L : 1.0L);
         for (int i = 0; i < n; i++)
         {
             A(i, i) = (LD)(i + 1) * 2.0L - (indef ? 7.0L : 0.0L);
@@ -479,6 +482,7 @@ static void mode_lobpcg(const Desc& d)
                 if (i + 1 < n)
                     B(i, i + 1) = B(i + 1, i) = 0.4L * r.sym();
             }
+        A *= scale;
         Mat Ad = A.cast<double>(), Bd = B.cast<double>();
         MatL AL = Ad.cast<LD>(), BL = Bd.cast<LD>();
         SpMat As = Ad.sparseView(), Bs = Bd.sparseView();
@@ -501,76 +505,110 @@ static void mode_lobpcg(const Desc& d)
         }
         const int maxit = (c % 7 == 6) ? 2 : 200;
         // c % 6 == 4: a tight tolerance (tol * n below sqrt(eps)): the active residual / direction blocks get B-norms below 1e-8
-        const double tol = (c % 6 == 4) ? 1e-10 : ((c % 2) ? 1e-6 : 1e-7);
-        int thr = 0;
+        const double tol = ((c % 6 == 4) ? 1e-10 : ((c % 2) ? 1e-6 : 1e-7)) * (double) scale;
+        // one compute() on the object and everything a caller can observe afterwards, against the pencil (AL_, BL_) that is in force
+        auto run_call = [&](const MatL& AL_, const MatL& BL_, int maxit_, double tol_, int withB_, int call)
         {
-            Line b("LobBegin");
-            b.i("n", n).i("k", k);
-            out().put(b);
-        }
-        // hook events of the iteration (LobIter) go into the trace
-        OnlySink lobsink("LobIter");
-        Spectra::verif::sink() = &lobsink;
-        try
-        {
-            solver.compute(maxit, tol);
-        }
-        catch (const std::exception&)
-        {
-            thr = 1;
-        }
-        Spectra::verif::sink() = NULL;
-        if (thr)
-        {
+            int thr = 0;
+            {
+                Line b("LobBegin");
+                b.i("n", n).i("k", k);
+                out().put(b);
+            }
+            // hook events of the iteration (LobIter) go into the trace
+            OnlySink lobsink("LobIter");
+            Spectra::verif::sink() = &lobsink;
+            try
+            {
+                solver.compute(maxit_, tol_);
+            }
+            catch (const std::exception& ex)
+            {
+                thr = 1;
+                if (d.i("dbg", 0))
+                    fprintf(stderr, "lobpcg call %d threw: %s\n", call, ex.what());
+            }
+            Spectra::verif::sink() = NULL;
+            if (thr)
+            {
+                Line l("Lob");
+                l.i("n", n).i("k", k).i("qn", q((LD) n)).i("withB", withB_).i("withT", withT).i("maxit", maxit_).i("info", -1).i("thr", 1).i("call", call);
+                out().put(l);
+                return;
+            }
+            // reference: generalized symmetric eigenproblem in long double
+            Eigen::GeneralizedSelfAdjointEigenSolver<MatL> ref(AL_, BL_);
+            VecL lref = ref.eigenvalues();
+            Eigen::VectorXd ev = solver.eigenvalues();
+            Mat Xp = solver.eigenvectors();
+            Mat R = solver.residuals();
+            Mat Xit = Mat(Spectra::verif::Access::lobpcg_X(solver));
             Line l("Lob");
-            l.i("n", n).i("k", k).i("qn", q((LD) n)).i("withB", withB).i("withT", withT).i("maxit", maxit).i("info", -1).i("thr", 1);
+            l.i("n", n).i("k", k).i("qn", q((LD) n)).i("withB", withB_).i("withT", withT).i("maxit", maxit_).i("info", (ll) solver.info()).i("qtol", q((LD) tol_ * n));
+            l.i("thr", 0).i("call", call).i("nev", (ll) ev.size()).i("xrows", (ll) Xp.rows()).i("xcols", (ll) Xp.cols()).i("rrows", (ll) R.rows()).i("rcols", (ll) R.cols());
+            l.i("fin", (all_finite(ev) && all_finite(Xp) && all_finite(R)) ? 1 : 0);
+            const int kk = (int) std::min<Eigen::Index>(ev.size(), k);
+            // eigenvalues: ascending (exact ranks), distance to the k smallest reference eigenvalues
+            int asc = 1;
+            std::vector<ll> qd;
+            LD spread = lref[n - 1] - lref[0];
+            for (int i = 0; i < kk; i++)
+            {
+                if (i + 1 < kk && !(ev[i] <= ev[i + 1]))
+                    asc = 0;
+                qd.push_back(q(std::fabs((LD) ev[i] - lref[i]) / spread));
+            }
+            l.i("asc", asc).arr("qdist", qd);
+            // X = eigenvectors() if it has the documented shape, else the iterate block (friend access)
+            const bool shape_ok = Xp.rows() == n && Xp.cols() == k;
+            const Mat& X = shape_ok ? Xp : Xit;
+            l.i("xsrc", shape_ok ? 1 : 0);
+            if (X.rows() == n && X.cols() == k && (int) ev.size() == k)
+            {
+                MatL XL = X.cast<LD>();
+                VecL el = ev.cast<LD>();
+                l.i("qBorth", q((XL.transpose() * BL_ * XL - MatL::Identity(k, k)).norm()));
+                MatL Rtrue = AL_ * XL - BL_ * XL * el.asDiagonal();
+                l.i("qResId", R.rows() == n && R.cols() == k ? q((R.cast<LD>() - Rtrue).norm() / (AL_.norm() + BL_.norm())) : QNAN);
+                LD rmax = 0;
+                for (int j = 0; j < k; j++)
+                    rmax = std::max(rmax, Rtrue.col(j).norm());
+                l.i("qResMax", q(rmax));
+            }
+            else
+                l.i("qBorth", QNAN).i("qResId", QNAN).i("qResMax", QNAN);
             out().put(l);
-            continue;
-        }
-        // reference: generalized symmetric eigenproblem in long double
-        Eigen::GeneralizedSelfAdjointEigenSolver<MatL> ref(AL, BL);
-        VecL lref = ref.eigenvalues();
-        Eigen::VectorXd ev = solver.eigenvalues();
-        Mat Xp = solver.eigenvectors();
-        Mat R = solver.residuals();
-        Mat Xit = Mat(Spectra::verif::Access::lobpcg_X(solver));
-        Line l("Lob");
-        l.i("n", n).i("k", k).i("qn", q((LD) n)).i("withB", withB).i("withT", withT).i("maxit", maxit).i("info", (ll) solver.info()).i("qtol", q((LD) tol * n));
-        l.i("thr", 0).i("nev", (ll) ev.size()).i("xrows", (ll) Xp.rows()).i("xcols", (ll) Xp.cols()).i("rrows", (ll) R.rows()).i("rcols", (ll) R.cols());
-        l.i("fin", (all_finite(ev) && all_finite(Xp) && all_finite(R)) ? 1 : 0);
-        const int kk = (int) std::min<Eigen::Index>(ev.size(), k);
-        // eigenvalues: ascending (exact ranks), distance to the k smallest reference eigenvalues
-        int asc = 1;
-        std::vector<ll> qd;
-        LD spread = lref[n - 1] - lref[0];
-        for (int i = 0; i < kk; i++)
+        };
+        run_call(AL, BL, maxit, tol, withB, 1);
+        // later calls on the same object (whatever compute() reports describes THIS call and the pencil in force now):
+        //   hist 1: a second compute() with a tolerance that cannot be met in one iteration
+        //   hist 2: setB(B2) with another positive-definite B2, then compute() again
+        //   hist 3 (only on request, lobhist=3): the same compute() again.  Not part of the profiles: when a single column is left in the
+        //   active block at iteration 0 the inner Rayleigh-Ritz solver is built with ncv <= nev and throws - the recorded k = 1 finding
+        //   reached through a call history (see DESIGN.md)
+        const int hist = d.has("lobhist") ? (int) d.i("lobhist") : (c % 5 == 1 ? 1 : (c % 5 == 3 ? 2 : 0));
+        if (hist == 1)
+            run_call(AL, BL, 1, 1e-15 * (double) scale, withB, 2);
+        else if (hist == 2)
         {
-            if (i + 1 < kk && !(ev[i] <= ev[i + 1]))
-                asc = 0;
-            qd.push_back(q(std::fabs((LD) ev[i] - lref[i]) / spread));
+            MatL B2 = MatL::Identity(n, n);
+            for (int i = 0; i < n; i++)
+            {
+                B2(i, i) = 3.0L + 2.0L * r.uni();
+                if (i + 1 < n)
+                    B2(i, i + 1) = B2(i + 1, i) = 0.7L * r.sym();
+            }
+            Mat B2d = B2.cast<double>();
+            MatL B2L = B2d.cast<LD>();
+            SpMat B2s = B2d.sparseView();
+            solver.setB(B2s);
+            run_call(AL, B2L, maxit, tol, 1, 2);
         }
-        l.i("asc", asc).arr("qdist", qd);
-        // X = eigenvectors() if it has the documented shape, else the iterate block (friend access)
-        const bool shape_ok = Xp.rows() == n && Xp.cols() == k;
-        const Mat& X = shape_ok ? Xp : Xit;
-        l.i("xsrc", shape_ok ? 1 : 0);
-        if (X.rows() == n && X.cols() == k && (int) ev.size() == k)
-        {
-            MatL XL = X.cast<LD>();
-            VecL el = ev.cast<LD>();
-            l.i("qBorth", q((XL.transpose() * BL * XL - MatL::Identity(k, k)).norm()));
-            MatL Rtrue = AL * XL - BL * XL * el.asDiagonal();
-            l.i("qResId", R.rows() == n && R.cols() == k ? q((R.cast<LD>() - Rtrue).norm() / (AL.norm() + BL.norm())) : QNAN);
-            LD rmax = 0;
-            for (int j = 0; j < k; j++)
-                rmax = std::max(rmax, Rtrue.col(j).norm());
-            l.i("qResMax", q(rmax));
-        }
-        else
-            l.i("qBorth", QNAN).i("qResId", QNAN).i("qResMax", QNAN);
-        out().put(l);
+        else if (hist == 3)
+            run_call(AL, BL, maxit, tol, withB, 2);
     }
 }
+
 
 // =============================================================================================== C15: Davidson
 template <typename OpType, typename MatT>
